@@ -16,6 +16,13 @@ NOTES = ("Every check = TLA+ specification under spec/ checked by TLC + conforma
          "known_findings.json lists genuine defects (known / fixed).")
 NOT_APPLICABLE = {}
 CHECKS = {
+    "C07": {
+        "level": "exploration",
+        "technique": "TLA+ spec Inputs.tla (fragment alphabets per family of entry points, exhaustive enumeration of bounded sequences by TLC; contract automaton Call -> Return with liveness AlwaysReturns) ; every input given to the real parsing entry points inside recover in watchdog-supervised worker processes; outcome records validated by TLC (ContractTrace.tla)",
+        "text": "TLC enumerates every bounded fragment sequence of 12 families; each is joined and passed to the selector, validator/expander (all property names), "
+                "descriptor, @page/@media, colour, an+b, SVG path/attribute, URL and HTML attribute readers; any panic, process death or time-out is a violation.",
+        "note": "Exploration level: exhaustive only within the stated alphabets and lengths.",
+    },
     "C15": {
         "level": "model_checking",
         "technique": "TLA+ spec Render.tla (N renders x phases with per-render contexts and read-only globals; invariants Isolation/Deterministic/GlobalsUnchanged; SharedCache variant must fail) model-checked by TLC; every behaviour replayed as a goroutine schedule in a -race build of the harness, digests of the recorded backend calls compared with fresh-process renders; repeated renders of TLC-generated documents",
